@@ -897,12 +897,21 @@ def c15_worker(item):
     with Scratch("c15") as scr:
         orig, work = fresh(scr, ws, 0)
         twin = os.path.join(scr, "twin")
-        # cp -al of the tree files
+        # cp -al of the tree files - of all of them, of some, or of none; a file without a twin is held open by this monitor
+        # instead (a reader that opened it before the push): a replaced file then shows link count 0 and the old bytes
+        # through that descriptor, a file rewritten in place shows the new bytes
+        twin_mode = r.choice(["all", "all", "some", "none"])
+        os.makedirs(twin, exist_ok=True)
+        held = {}
         for p in ws.trees[0]:
             src = os.path.join(work, p)
-            dst = os.path.join(twin, p)
-            os.makedirs(os.path.dirname(dst), exist_ok=True)
-            os.link(src, dst)
+            if twin_mode == "all" or (twin_mode == "some" and r.random() < 0.5):
+                dst = os.path.join(twin, p)
+                os.makedirs(os.path.dirname(dst), exist_ok=True)
+                os.link(src, dst)
+            elif len(held) < 64:
+                held[p] = os.open(os.fsencode(src), os.O_RDONLY)
+        res.count("twin:%s" % twin_mode)
         before = runner.snapshot(work, with_meta=True)
         twin_before = runner.snapshot(twin, with_meta=True)
         env_extra = None
@@ -913,6 +922,11 @@ def c15_worker(item):
             env_extra = {"LD_PRELOAD": SHIM_SO, "FAULTSHIM_ROOT": work, "FAULTSHIM_FAIL_AT": str(r.randint(1, 12)), "FAULTSHIM_ERRNO": str(r.choice([13, 5, 28]))}
         rr, events = run_traced(binary, work, args, os.path.join(scr, "strace.log"), env_extra=env_extra)
         res["evals"] = 1
+        held_obs = {}
+        for p, fd in held.items():
+            st = os.fstat(fd)
+            held_obs[p] = (st.st_nlink, os.pread(fd, st.st_size + 1, 0))
+            os.close(fd)
         if faulted:
             res.count("runs-with-an-injected-output-fault")
         if rr.timed_out:
@@ -922,6 +936,22 @@ def c15_worker(item):
             res.viol(dict(sig0, **{"class": "crash", "rc": str(rr.rc), "where": cli.crash_site(rr.err)}), "crashed: %s" % rr.err.decode("utf-8", "replace")[-500:], orig, [binary] + args)
             return res
         after = runner.snapshot(work, with_meta=True)
+        # 0. files held open by the monitor: the descriptor still shows the original bytes; when the path now holds something
+        # else (or nothing) the original inode has no name left
+        for p, (nlink, data) in held_obs.items():
+            b = before[p]
+            a = after.get(p)
+            if data != b[1]:
+                res.viol(dict(sig0, **{"class": "open-descriptor-sees-other-content"}), "%s was opened before the push; the descriptor now reads %d bytes that differ from the original %d: the file was written in place" % (p, len(data), len(b[1])),
+                         orig, [binary] + args)
+                return res
+            changed = a is None or a[0] != "f" or a[1] != b[1] or a[2] != b[2]
+            if changed and nlink != 0:
+                res.viol(dict(sig0, **{"class": "changed-file-keeps-inode", "how": "link-count-of-the-held-inode"}), "%s changed but the inode opened before the push still has %d name(s)" % (p, nlink), orig, [binary] + args)
+                return res
+            res.count("held-open-files-verified")
+            if changed:
+                res.count("held-open-files-replaced")
         twin_after = runner.snapshot(twin, with_meta=True)
         res.count("syscalls-audited", len(events))
         # 1. the twin keeps content and mode
@@ -1013,7 +1043,7 @@ def c19_worker(item):
     ws = wsgen.generate(seed, cfg)
     esc_name, strip, label = r.choice(ESCAPES)
     where = r.choice(["both", "old-only", "new-only", "git-line", "rename-to", "rename-from"])
-    action = r.choice(["modify", "create", "delete"])
+    action = r.choice(["modify", "create", "delete", "create-two-names", "delete-two-names"])
     quoted = r.random() < 0.3
     threads = r.choice([1, 4])
     pos = r.randint(0, len(ws.patches))
@@ -1062,6 +1092,12 @@ def c19_worker(item):
         else:
             if action == "modify":
                 text = b"--- " + q(old_n) + b"\n+++ " + q(new_n) + b"\n" + body_mod
+            elif action == "create-two-names":
+                # creation / deletion shaped hunks with two real names (the "same name on both sides" dialect): whichever of the
+                # two the tool picks, the escaping one must make it refuse
+                text = b"--- " + q(old_n) + b"\n+++ " + q(new_n) + b"\n" + body_create
+            elif action == "delete-two-names":
+                text = b"--- " + q(old_n) + b"\n+++ " + q(new_n) + b"\n" + body_delete
             elif action == "create":
                 text = b"--- /dev/null\n+++ " + q(new_n if where != "old-only" else old_n) + b"\n" + body_create
             else:
@@ -1673,6 +1709,7 @@ def c18_worker(item):
     r = random.Random(seed * 613651349 + 18)
     res = Res()
     cfg = wsgen.GenConfig(p_fail=0.5, max_patches=r.choice([1, 2, 4]), max_files=4, allow_special_names=False)
+    cfg.p_long_last_line = r.choice([0.0, 0.0, 0.5])
     ws = wsgen.generate(seed, cfg)
     threads = r.choice([1, 1, 4])
     first = 0
@@ -1694,13 +1731,21 @@ def c18_worker(item):
         res.count("baseline-runs")
         res.count("baseline-output-operations", nops)
         kmax = nops + (2 if threads > 1 else 0)
+        faults = []
         for k in range(1, kmax + 1):
-            work = os.path.join(scr, "w%d" % k)
+            kind0 = ops0[min(k, nops) - 1]["op"]
+            faults.append((k, False))
+            if kind0 == "write":
+                faults.append((k, True))   # the same write as a SHORT write followed by "no more room"
+        for k, short in faults:
+            work = os.path.join(scr, "w%d%s" % (k, "s" if short else ""))
             runner.copy_ws(orig, work)
-            logk = os.path.join(scr, "shim%d.log" % k)
+            logk = os.path.join(scr, "shim%d%s.log" % (k, "s" if short else ""))
             kind0 = ops0[min(k, nops) - 1]["op"]
             err = {"open": 28, "write": 28, "mkdir": 28}.get(kind0, r.choice([13, 5]))
             env = {"LD_PRELOAD": SHIM_SO, "FAULTSHIM_LOG": logk, "FAULTSHIM_ROOT": work, "FAULTSHIM_FAIL_AT": str(k), "FAULTSHIM_ERRNO": str(err)}
+            if short:
+                env["FAULTSHIM_SHORT"] = "1"
             rr = runner.run_rq(binary, work, args, env_extra=env)
             res["evals"] += 1
             ops = read_shim_log(logk)
@@ -1712,11 +1757,16 @@ def c18_worker(item):
             f = hit[0]
             cls = output_class(f["path"])
             sig0 = {"driver": "seq" if threads == 1 else "par", "op": f["op"], "output": cls}
+            is_short = f["result"].startswith("FAIL-SHORT")
+            if is_short:
+                sig0["fault"] = "short-write"
             argv = [binary] + args
-            extra = {"fault": f, "fail_at": k, "errno": err, "operations_of_fault_free_run": nops}
+            extra = {"fault": f, "fail_at": k, "errno": err, "operations_of_fault_free_run": nops, "short_write": is_short}
             res.count("faults-injected")
-            res.count("fault:%s:%s" % (f["op"], cls))
-            res["nontrivial"].append(case_key(f["op"], cls, threads, cli.ws_shape_key(ws), k))
+            res.count("fault:%s:%s%s" % (f["op"], cls, ":short" if is_short else ""))
+            if is_short and int(f["result"].split(":")[1]) >= 8192:
+                res.count("short-writes-inside-a-line-longer-than-the-buffer")
+            res["nontrivial"].append(case_key(f["op"], cls, threads, cli.ws_shape_key(ws), k, is_short))
             if rr.timed_out:
                 res["inconclusive"] = "watchdog"
             elif rr.crashed():
@@ -1734,6 +1784,13 @@ def c18_worker(item):
                     named = any(part and part in msg for part in f["path"].strip("/").split("/"))
                 obs_applied = runner.read_applied(work) or []
                 new_names = obs_applied[first:]
+                if is_short and cls == "applied-patches" and new_names:
+                    # the write that was cut short is the one into applied-patches itself: the bytes the kernel took are
+                    # in the file, so its last line may be the beginning of the next name (not a patch name, no claim)
+                    j = len(new_names) - 1
+                    if first + j < len(names) and new_names[j] != names[first + j] and names[first + j].startswith(new_names[j]):
+                        new_names = new_names[:j]
+                        res.count("applied-patches-cut-inside-a-name-by-the-short-write")
                 if not named:
                     res.viol(dict(sig0, **{"class": "message-does-not-name-the-file"}), "%s of %s failed (errno %d); stderr: %s" % (f["op"], f["path"], err, msg[-300:]), orig, argv, extra)
                 elif new_names:
